@@ -72,7 +72,9 @@ def faultLine (rs : RibSt) (ts : List Tok) : RibSt :=
       else rs.monfail "c14" s!"{desc} AwaitConverged did not return the error within a bounded time (outcome: {g "await"})"
     | _ => rs.diff "cf.model" "the model does not report the recorded error"
   let rs := if g "done" == "1" then rs else rs.monfail "c14" s!"{desc} Done was not signalled"
-  let rs := if g "end" == "ok" then rs else rs.monfail "c14" s!"{desc} {ending} did not return (blocked)"
+  let rs := if g "end" == "ok" then rs
+    else if g "end" == "q-after-close-hang" then rs.monfail "c14" s!"{desc} a call that queues a request after Close did not return (blocked)"
+    else rs.monfail "c14" s!"{desc} {ending} did not return (blocked)"
   let rs := if g "leak" == "0" then rs else rs.monfail "c14" s!"{desc} {g "leak"} sender/receiver goroutine(s) left behind"
   let rs :=
     if ending != "reset" ∨ g "end" != "ok" then rs else
